@@ -27,9 +27,14 @@ TRUSTED_BASE = [
     'model and checked only behaviourally against gcc',
     'per-scope tables are association lists: justified by C17 (Lemmas/ScopeLemmas.lean proves the chain of hashmap.c tables '
     'refines the chain of dictionaries)',
-    'tools/harness/c03_harness.c, the generators and the comparison in checklib/C03.py',
+    'tools/harness/c03_harness.c, the generators and the comparison in checklib/C03.py; gcc 12 -O0 is the reference compiler, '
+    'clang-14 -O0 arbitrates when chibicc and gcc differ (a difference counts against chibicc only if it differs from every '
+    'reference that ran; gcc-vs-clang disagreements are recorded in the evidence)',
 ]
 ASSUMPTIONS = ['programs are valid GNU C11: case values distinct and ranges non-empty in the controlling type, labels unique per function',
+               'latitude (lead decision, DESIGN C03): a case range that is non-empty as `long` but empty after conversion to the '
+               'controlling type (gcc: warning "empty range specified", never matches; chibicc: wrapped interval), and an unsigned long '
+               'range crossing 2^63 (chibicc: rejected as empty) are outside the property; generators exclude them (skipped_latitude)',
                'case constants lie in the range of the promoted controlling type (conversion of out-of-range constants is implementation-defined)']
 
 LIMIT = 400
@@ -1333,7 +1338,8 @@ MANIFEST = {
                   'selects exactly the matching case for every 32/64-bit value), C03_preserve_partial (trace of the emitted code on the '
                   'machine = Spec.exec for structured nests).  Tied on every run by exact skeleton-text comparison with chibicc -S and by '
                   'trace comparison of compiled programs against gcc and the Lean spec; scoping against generated shadowing programs.',
-    'level_note': 'Preservation is proved for the structured fragment (no goto/computed goto, case labels only as prefixes of top-level '
+    'level_note': 'C03_switch_select has the explicit hypothesis "lo <= hi in the controlling type" (the property\'s own wording). '
+                  'Preservation is proved for the structured fragment (no goto/computed goto, case labels only as prefixes of top-level '
                   'items of the switch body); goto, Duff-style case labels, && || ?: , and statement expressions are covered by '
                   'differential execution against gcc only.  Calls and casts are abstracted in the skeleton (C06/C01).',
     'technique': 'Lean 4: refinement + backward-history specification (scopes), structural induction with the parser state as invariant '
